@@ -2,6 +2,7 @@ package main
 
 import (
 	"encoding/binary"
+	"encoding/json"
 	"fmt"
 	"math"
 	"math/rand"
@@ -146,10 +147,10 @@ func showInfo(i *pgdump.TOASTVerboseInfo) string {
 	for _, k := range dk {
 		dist = append(dist, fmt.Sprintf("%d:%d", k, i.ChunkDistribution[k]))
 	}
-	vals := append([]pgdump.TOASTValueInfo(nil), i.Values...)
-	sort.SliceStable(vals, func(a, b int) bool { return vals[a].ChunkID < vals[b].ChunkID })
+	// Values is rendered in the order GetTOASTVerboseInfo returned it: the order is part of the result
+	// (C11: reproducible order), so nothing is sorted here (ChunkDistribution above is a map: by key)
 	var vs []string
-	for _, v := range vals {
+	for _, v := range i.Values {
 		vs = append(vs, fmt.Sprintf("%d:%d:%d", v.ChunkID, v.NumChunks, v.TotalSize))
 	}
 	return fmt.Sprintf("%d|%d|%d|%d|%016x|%d|%s|%s", i.ToastRelID, i.TotalChunks, i.UniqueValues, i.TotalSize,
@@ -368,10 +369,15 @@ func init() {
 		return b2s(pgdump.IsTOASTPointer(d)) + "|" + showPtr(pgdump.ParseTOASTPointer(d))
 	})
 	// toastrel: args = mode, relid, file, pointers (18 bytes each)
-	core.Register("toastrel", func(args []string) string {
+	toastrel := func(args []string) string {
 		relid, _ := strconv.ParseUint(args[1], 10, 32)
 		return strings.Join(relResults(core.Atoi(args[0]), uint32(relid), unhex(args[2]), unhex(args[3])), ";")
-	})
+	}
+	core.Register("toastrel", toastrel)
+	// toastties: the same on relations whose live rows repeat a chunk_seq (modes 0 and 1)
+	core.Register("toastties", toastrel)
+	// toastunhinted: the same on relations whose hint bits have not been set yet (open finding C08-unhinted-chunks)
+	core.Register("toastunhinted", toastrel)
 	// toastrel2: args = mode, relidA, fileA, relidB, fileB, pointers — ONE reader holding two relations whose value ids collide
 	core.Register("toastrel2", func(args []string) string {
 		relA, _ := strconv.ParseUint(args[1], 10, 32)
@@ -428,6 +434,23 @@ func init() {
 	core.Register("toaststats", func(args []string) string {
 		relid, _ := strconv.ParseUint(args[0], 10, 32)
 		return showInfo(pgdump.GetTOASTVerboseInfo(uint32(relid), unhex(args[1])))
+	})
+	// toastrepeat (C11): GetTOASTVerboseInfo 20 times on the same file; the json.Marshal renderings (what
+	// `pgread -toast-verbose` prints) must be byte-identical
+	core.Register("toastrepeat", func(args []string) string {
+		relid, _ := strconv.ParseUint(args[0], 10, 32)
+		file := unhex(args[1])
+		render := func() string {
+			j, err := json.Marshal(pgdump.GetTOASTVerboseInfo(uint32(relid), file))
+			return fmt.Sprintf("%v %s", err != nil, j)
+		}
+		first := render()
+		for i := 1; i < 20; i++ {
+			if again := render(); again != first {
+				return fmt.Sprintf("DIFFERS at repetition %d", i)
+			}
+		}
+		return "same"
 	})
 	// toastmut: malformed relations / pointers / streams; everything must return, without an
 	// allocation out of proportion to the input (C10)
